@@ -243,8 +243,10 @@ def load_findings(prop):
 # evidence
 # ----------------------------------------------------------------------------------------------------------------
 
-def write_evidence(prop, tier, seed, level, coverage, assumptions, wall_s, violations):
-    d = VERIF / "evidence"
+def write_evidence(prop, tier, seed, level, coverage, assumptions, wall_s, violations, scratch=False):
+    # evidence/ only ever holds records of complete runs (build + audit + correspondence) against /repo itself; a run against
+    # another checkout (EXETERA_REPO, e.g. a seeded change) or without the Lean steps leaves its record under replay/
+    d = VERIF / ("replay" if scratch or os.path.realpath(REPO) != "/repo" else "evidence")
     d.mkdir(exist_ok=True)
     ev = {"property_id": prop, "tier": tier, "seed": seed, "level": level, "coverage": coverage,
           "assumptions": assumptions, "wall_s": round(wall_s, 2), "violations": violations}
